@@ -12,3 +12,5 @@ import TsVerif.C12.Props
 #print axioms TsVerif.C12.reach_total_bound
 #print axioms TsVerif.C12.rebuilt_in_level
 #print axioms TsVerif.C12.marked_total_bound_partial
+#print axioms TsVerif.C12.uncovered_split
+#print axioms TsVerif.C12.reparse_work_bound_partial
